@@ -1,5 +1,6 @@
 import Cherab.Model.Adf
 import Cherab.Lemmas.Adf
+import Cherab.Lemmas.Adf15
 import Mathlib.Tactic.Ring
 import Mathlib.Tactic.Linarith
 import Mathlib.Data.List.Nodup
@@ -455,7 +456,7 @@ theorem axis_order2x (t : Tab2x α) (i j : Nat) (hi : i < t.eb.length) (hj : j <
     (expected2x t).sen[i]?.bind (·[j]?) = some (t.sv i j) := tabulate_get _ _ _ i j hi hj
 
 section dict
-variable {κ β : Type} [DecidableEq κ]
+variable {κ β : Type} [BEq κ] [LawfulBEq κ]
 
 theorem dictSet_new (d : List (κ × β)) (k : κ) (v : β) (h : k ∉ d.map (·.1)) : dictSet d k v = d ++ [(k, v)] := by
   induction d with
@@ -541,6 +542,189 @@ theorem adf11_absent_block {ν : Type} (t : Tab11 α ν) (z : Nat) (h : z ∉ t.
     rw [List.map_map]; rfl
   rw [dictOfList_nodup _ (by rw [hk]; exact hnd)]
   exact dictGet_absent _ z (by rw [hk]; exact h)
+
+/-! ## ADF15 -/
+section adf15
+variable {ω σ : Type} [DecidableEq σ]
+
+/-- what the index section of the file says: (type, transition, ISEL, wavelength) per index line; in the full dialect the
+two level numbers are looked up in the configuration table -/
+def entries15 (t : Tab15 α ω σ) : List (Entry15 ω σ) :=
+  match t.dialect with
+  | .full _ => t.idx.filterMap (entryFOf (cfgTable t))
+  | _ => t.idx.map entryNOf
+
+/-- which calls of `parse_adf15` read which header dialect: hydrogen-style index (`header_format='hydrogen'`, element
+hydrogen, or the `bnd#` fallback for one-electron ions), hydrogen-like (`header_format='hydrogen-like'` or a
+one-electron ion), full configuration (everything else) -/
+def Selects (s : Sel15) : Dialect → Prop
+  | .hydrogen => (s.headerFormat = some .hydrogen ∨ s.isHydrogen = true)
+      ∨ (s.headerFormat = none ∧ s.isHydrogen = false ∧ s.oneElectron = true ∧ s.bnd = true)
+  | .hydrogenLike => s.headerFormat ≠ some .hydrogen ∧ s.isHydrogen = false
+      ∧ (s.headerFormat = some .hydrogenLike ∨ s.oneElectron = true)
+  | .full _ => s.headerFormat = none ∧ s.isHydrogen = false ∧ s.oneElectron = false
+
+structure WF15 (t : Tab15 α ω σ) : Prop where
+  idx_ne : t.idx ≠ []
+  cfg_l : ∀ c ∈ t.cfgs, c.l ≤ 13
+  levels : ∀ dot, t.dialect = .full dot → ∀ e ∈ t.idx, (entryFOf (cfgTable t) e).isSome
+
+/-- **ISEL → transition map** for the three header dialects -/
+theorem scrape_render (t : Tab15 α ω σ) (s : Sel15) (hsel : Selects s t.dialect) (hwf : WF15 t) :
+    scrape lexK15 s (render15 t) = .ok (entries15 t) := by
+  unfold scrape entries15
+  cases hd : t.dialect with
+  | hydrogen =>
+    rw [hd] at hsel
+    rcases hsel with h | ⟨h1, h2, h3, h4⟩
+    · have : (decide (s.headerFormat = some HeaderFormat.hydrogen) || s.isHydrogen) = true := by
+        rcases h with h | h <;> simp [h]
+      simp only [this, if_true]
+      exact scrapeHydrogen_render t hd
+    · have hne : t.idx.map (entryNOf (σ := σ)) ≠ [] ∨ True := Or.inr trivial
+      simp only [h1, h2, h3, h4, reduceCtorEq, decide_false, Bool.or_self, Bool.false_eq_true, if_false, if_true]
+      have := scrapeHydrogenLike_on_hydrogen t hd
+      unfold L15 at this
+      rw [this]
+      exact scrapeHydrogen_render t hd
+  | hydrogenLike =>
+    rw [hd] at hsel
+    obtain ⟨h1, h2, h3⟩ := hsel
+    have hc1 : (decide (s.headerFormat = some HeaderFormat.hydrogen) || s.isHydrogen) = false := by simp [h1, h2]
+    simp only [hc1, Bool.false_eq_true, if_false]
+    have hr := scrapeHydrogenLike_render t hd
+    unfold L15 at hr
+    by_cases hhl : s.headerFormat = some HeaderFormat.hydrogenLike
+    · simp only [hhl, if_true]; exact hr
+    · have ho : s.oneElectron = true := by rcases h3 with h | h; exact absurd h hhl; exact h
+      simp only [hhl, if_false, ho, if_true, hr]
+      cases hm : t.idx.map (entryNOf (σ := σ)) with
+      | nil =>
+        have : t.idx = [] := by simpa using hm
+        exact absurd this hwf.idx_ne
+      | cons a l => rfl
+  | full dot =>
+    rw [hd] at hsel
+    obtain ⟨h1, h2, h3⟩ := hsel
+    simp only [h1, h2, h3, reduceCtorEq, decide_false, Bool.or_self, Bool.false_eq_true, if_false]
+    exact scrapeFull_render t dot hd hwf.cfg_l (hwf.levels dot hd)
+
+theorem entries15_ne (t : Tab15 α ω σ) (hwf : WF15 t) : (entries15 t).isEmpty = false := by
+  unfold entries15
+  obtain ⟨e, es, he⟩ : ∃ e es, t.idx = e :: es := by
+    cases h : t.idx with
+    | nil => exact absurd h hwf.idx_ne
+    | cons e es => exact ⟨e, es, rfl⟩
+  cases hd : t.dialect with
+  | hydrogen => simp [he]
+  | hydrogenLike => simp [he]
+  | full dot =>
+    have := hwf.levels dot hd e (by rw [he]; exact List.mem_cons_self)
+    obtain ⟨en, hen⟩ := Option.isSome_iff_exists.mp this
+    simp [he, List.filterMap_cons, hen]
+
+/-- the block with `ISEL = p.2` exists in the data section -/
+def present (t : Tab15 α ω σ) (p : Trans σ × Nat) : Bool := (findBlk t.blocks p.2).isSome
+
+def ratesFor (t : Tab15 α ω σ) (cfg : List (Trans σ × Nat)) : List (Trans σ × Rate15 α) :=
+  cfg.filterMap fun p => (findBlk t.blocks p.2).map fun b => (p.1, rateOfBlk15 b)
+
+theorem extractAll_render (t : Tab15 α ω σ) (cfg : List (Trans σ × Nat)) :
+    extractAll lexK15 (render15 t) cfg = if cfg.all (present t) then .ok (ratesFor t cfg) else .error .runtime := by
+  induction cfg with
+  | nil => rfl
+  | cons p cfg ih =>
+    obtain ⟨tr, k⟩ := p
+    have hx := extractRate_render (σ := σ) t k
+    unfold L15 at hx
+    cases hf : findBlk t.blocks k with
+    | none =>
+      rw [hf] at hx
+      simp [extractAll, hx, present, hf]
+    | some b =>
+      rw [hf] at hx
+      simp only [extractAll, hx, ih, List.all_cons, present, hf, Option.isSome_some, Bool.true_and]
+      by_cases hall : cfg.all (present t) = true
+      · simp only [present] at hall
+        simp [hall, ratesFor, hf]
+      · have : (cfg.all (present t)) = false := by simpa using hall
+        simp only [present] at this
+        simp [this]
+
+/-- every transition of every type refers to a block that the data section contains -/
+def AllPresent (t : Tab15 α ω σ) : Prop := ∀ T, (configOf (entries15 t) T).all (present t) = true
+
+def expected15 (t : Tab15 α ω σ) : Out15 α ω σ :=
+  { excitation := ratesFor t (configOf (entries15 t) .excit),
+    recombination := ratesFor t (configOf (entries15 t) .recom),
+    thermalcx := ratesFor t (configOf (entries15 t) .chexc),
+    wavelength := dictOfList ((entries15 t).map fun e => (e.tr, e.wl)) }
+
+theorem parse15_render (t : Tab15 α ω σ) (s : Sel15) (hsel : Selects s t.dialect) (hwf : WF15 t) :
+    parse15 lexK15 s (render15 t)
+      = if (configOf (entries15 t) .excit).all (present t) && (configOf (entries15 t) .recom).all (present t)
+            && (configOf (entries15 t) .chexc).all (present t)
+        then .ok (expected15 t) else .error .runtime := by
+  unfold parse15
+  have hh : (render15 t).head? = some (.fileHeader t.blocks.length) := by rw [render15_eq]; rfl
+  have hf : (lexK15 (α := α) (ω := ω) (σ := σ)).fileHeader (.fileHeader t.blocks.length) = true := rfl
+  simp only [hh, opt, bind, Except.bind, hf, Bool.not_true, Bool.false_eq_true, if_false, scrape_render t s hsel hwf,
+    entries15_ne t hwf, extractAll_render]
+  by_cases h1 : (configOf (entries15 t) .excit).all (present t) = true
+  · by_cases h2 : (configOf (entries15 t) .recom).all (present t) = true
+    · by_cases h3 : (configOf (entries15 t) .chexc).all (present t) = true
+      · simp [h1, h2, h3, expected15, pure, Except.pure]
+      · simp [h1, h2, h3]
+    · simp [h1, h2]
+  · simp [h1]
+
+/-- **ADF15 round trip** (hydrogen / hydrogen-like / full-configuration headers, EXCIT / RECOM / CHEXC blocks, any
+number of blocks, any grid sizes): each index line's transition is given the tables of the data block carrying its
+ISEL number — densities, temperatures and `rate[i_ne][i_te]` (`rateOfBlk15`, `axis_order15`) — grouped by type, and the
+wavelength table holds the index line's wavelength. -/
+theorem adf15_roundtrip (t : Tab15 α ω σ) (s : Sel15) (hsel : Selects s t.dialect) (hwf : WF15 t) (hp : AllPresent t) :
+    parse15 lexK15 s (render15 t) = .ok (expected15 t) := by
+  rw [parse15_render t s hsel hwf]
+  simp [hp .excit, hp .recom, hp .chexc]
+
+/-- **absent block**: if some indexed transition refers to an ISEL number that no data block carries, `parse_adf15`
+raises `RuntimeError` instead of returning tables -/
+theorem absent_block_rejected (t : Tab15 α ω σ) (s : Sel15) (hsel : Selects s t.dialect) (hwf : WF15 t) (hp : ¬ AllPresent t) :
+    parse15 lexK15 s (render15 t) = .error .runtime := by
+  rw [parse15_render t s hsel hwf]
+  have : ¬ ((configOf (entries15 t) .excit).all (present t) = true ∧ (configOf (entries15 t) .recom).all (present t) = true
+      ∧ (configOf (entries15 t) .chexc).all (present t) = true) := by
+    rintro ⟨h1, h2, h3⟩
+    apply hp
+    intro T
+    cases T <;> assumption
+  by_cases h1 : (configOf (entries15 t) .excit).all (present t) = true
+  · by_cases h2 : (configOf (entries15 t) .recom).all (present t) = true
+    · by_cases h3 : (configOf (entries15 t) .chexc).all (present t) = true
+      · exact absurd ⟨h1, h2, h3⟩ this
+      · simp [h1, h2, h3]
+    · simp [h1, h2]
+  · simp [h1]
+
+/-- **block-to-transition assignment**: when the transitions of one type are pairwise distinct, each keeps the ISEL
+number of its own index line (otherwise the later line wins, as in a Python dict) -/
+theorem block_to_transition (t : Tab15 α ω σ) (T : RateType)
+    (hnd : (((entries15 t).filter (·.typ == T)).map (·.tr)).Nodup) :
+    configOf (entries15 t) T = ((entries15 t).filter (·.typ == T)).map fun e => (e.tr, e.block) := by
+  unfold configOf
+  apply dictOfList_nodup
+  rw [List.map_map]
+  exact hnd
+
+/-- the looked-up block is the first data block carrying that ISEL number -/
+theorem extract_finds_block (t : Tab15 α ω σ) (k : Nat) :
+    extractRate lexK15 (render15 t) k
+      = match t.blocks.find? (fun b => b.isel == k) with
+        | some b => .ok (rateOfBlk15 b)
+        | none => .error .runtime :=
+  extractRate_render (σ := σ) t k
+
+end adf15
 
 /-! ### the resolved-file probe: concrete witness of the mis-detection -/
 
